@@ -116,36 +116,73 @@ proof! {
     }
 }
 
-/// Digit floods: placement fields made of digits and '/' only, up to 48 bytes — long enough for the
-/// empty-square counter to pass 255 (thirty-two '8's, seven '/', seven more digits).
-proof! {
-    fn fen_placement_digit_flood_le48() {
-        let bytes: [u8; 48] = kani::any();
-        let len: usize = kani::any();
-        kani::assume(len >= 15 && len <= 48);
-        let mut slashes = 0u32;
-        let mut prev_slash = true;
-        let mut ok = true;
-        let mut i = 0;
-        while i < 48 {
-            if i < len {
-                let b = bytes[i];
-                let is_slash = b == b'/';
-                ok = ok && (is_slash || (b >= b'1' && b <= b'8'));
-                if is_slash {
-                    ok = ok && !prev_slash;
-                    slashes += 1;
-                }
-                prev_slash = is_slash;
+/// A concrete flood of `P` eights followed by every symbolic tail of at most `T` bytes over the regex
+/// alphabet (seven '/', no empty segment): the empty-square counter stands at 8*P when the symbolic part
+/// begins, so with P = 31 the next digit decides whether the `u8` cursor passes 255. The concrete prefix
+/// costs almost nothing to execute symbolically; the tail is fully symbolic.
+fn fen_placement_after_flood<const P: usize, const T: usize, const N: usize>(tag: &str) {
+    let tail: [u8; T] = kani::any();
+    let tlen: usize = kani::any();
+    kani::assume(tlen >= 14 && tlen <= T);
+    let mut bytes = [b'8'; N];
+    let mut slashes = 0u32;
+    let mut prev_slash = P == 0; // with an empty prefix the first segment must not be empty
+    let mut ok = true;
+    let mut i = 0;
+    while i < T {
+        if i < tlen {
+            let b = tail[i];
+            let is_slash = b == b'/';
+            let is_piece_or_digit = matches!(b, b'r' | b'n' | b'b' | b'q' | b'k' | b'p' | b'R' | b'N' | b'B' | b'Q' | b'K' | b'P' | b'1'..=b'8');
+            ok = ok && (is_slash || is_piece_or_digit);
+            if is_slash {
+                ok = ok && !prev_slash;
+                slashes += 1;
             }
+            prev_slash = is_slash;
+            bytes[P + i] = b;
+        }
+        i += 1;
+    }
+    kani::assume(ok && slashes == 7 && !prev_slash);
+    show(tag, &bytes[..P + tlen]);
+    let s = std::str::from_utf8(&bytes[..P + tlen]).unwrap();
+    let r = weechess_core::notation::verif_board_try_parse(s);
+    kani::cover!(r.is_err(), "an over-long placement is rejected");
+    kani::cover!(tlen == T, "longest tail");
+}
+
+proof! {
+    fn fen_placement_flood31_tail16() {
+        fen_placement_after_flood::<31, 16, 47>("c14 fen_placement_flood31_tail16");
+    }
+}
+
+proof! {
+    fn fen_placement_flood7_tail18() {
+        fen_placement_after_flood::<7, 18, 25>("c14 fen_placement_flood7_tail18");
+    }
+}
+
+/// Digit floods: a placement field whose first rank segment is a run of 40 digits, followed by seven
+/// one-digit segments (54 bytes, every digit symbolic in 1..=8) — long enough for the empty-square
+/// counter to pass 255. The slash positions are fixed so that the solver's work goes into the digits.
+proof! {
+    fn fen_placement_digit_flood() {
+        let digits: [u8; 47] = kani::any();
+        let mut bytes = [b'/'; 54];
+        let mut i = 0;
+        while i < 47 {
+            kani::assume(digits[i] >= 1 && digits[i] <= 8);
+            // positions 0..40 are the run; then "/d" seven times
+            let pos = if i < 40 { i } else { 40 + 2 * (i - 40) + 1 };
+            bytes[pos] = b'0' + digits[i];
             i += 1;
         }
-        kani::assume(ok && slashes == 7 && !prev_slash);
-        show("c14 fen_placement_digit_flood_le48", &bytes[..len]);
-        let s = std::str::from_utf8(&bytes[..len]).unwrap();
+        show("c14 fen_placement_digit_flood", &bytes[..]);
+        let s = std::str::from_utf8(&bytes[..]).unwrap();
         let r = weechess_core::notation::verif_board_try_parse(s);
-        kani::cover!(r.is_ok() && len == 15, "eight ranks of one digit each");
-        kani::cover!(len == 48, "longest flood");
+        kani::cover!(r.is_ok(), "a digit flood is accepted as an (over-long) placement");
     }
 }
 
